@@ -231,7 +231,9 @@ func runC11(c *core.Ctx) {
 		}
 		// node type of the node an advance store puts under the cursor, and the flow site it came from
 		kindOf := func(w *c04Walker, st *ssa.Store) (isAttr bool, site int, known bool) {
-			call, ok := st.Val.(*ssa.Call)
+			// the stored value may be the parameter of an inlined cursor helper (push(child)): the creation is the
+			// argument bound on the inline stack
+			call, ok := w.resolve(st.Val).(*ssa.Call)
 			if !ok {
 				return false, -1, false
 			}
@@ -279,7 +281,7 @@ func runC11(c *core.Ctx) {
 			switch x := in.(type) {
 			case *ssa.Store:
 				switch {
-				case e.advanceStore(r, x):
+				case e.advanceStore(r, x) || j2BoundAdvanceStore(e, r, w, x):
 					isAttr, site, known := kindOf(w, x)
 					if !known {
 						leaveAttr(st, "a node of unknown type is attached")
